@@ -22,6 +22,8 @@ import EinoV.Model.C03Loop
 import EinoV.Proofs.C03Loop
 import EinoV.Model.C03Fail
 import EinoV.Proofs.C03Fail
+import EinoV.Model.C03Cancel
+import EinoV.Proofs.C03Cancel
 
 namespace EinoV.C03
 open EinoV.Gen
@@ -824,5 +826,209 @@ theorem eager_run_agrees_with_batch_run {V : Type} (ops : ValOps V) (hm : MergeP
     (wf : DagWF r) (wf2 : DagWF2 r) (wf3 : DagWF3 r) (pick : Pick V) (sched : Sched V) (hf : sched.Fair) (x vE vB : V)
     (hE : (runEager ops r pick x).result = .ok vE) (hB : (runS ops r sched x).result = .ok vB) : vE = vB :=
   runEager_agrees_with_batch ops hm r wf wf2 wf3 pick sched hf x vE vB hE hB
+
+/-! ## the run's context becomes done (cancel / deadline) at an arbitrary point
+
+  Model: `Model/C03Cancel.lean`.  The schedules of the task manager are extended by two events:
+  `cancel` (the context becomes done; once, at ANY position of the schedule — before the
+  submit, between the loop-top check and the start of the executors, while bodies run, inside
+  the collector's window …) and `enter t` (the executor of a counted execution reaches its
+  first statement).  Three more source facts: `executorDefersFirst` (the hand-off `defer` is
+  the first statement of `executor`), `tmIgnoresCtx` (no method of the task manager reads a
+  context) and `cancelCheckAtLoopTop` (the run loop looks at the context only in the `select`
+  at the top of an iteration). -/
+
+/-- the cancel facts as regenerated from compose/graph_manager.go -/
+def genCancelFacts : CancelFacts :=
+  { executorDefersFirst := FactsC03.executorDefersFirst }
+
+/-- The regenerated facts are the ones the theorems below are proved for; the two shape facts
+    justify the event language: a done context neither enables nor disables a step of the task
+    manager (`tmIgnoresCtx`), and the run loop notices it between two iterations only
+    (`cancelCheckAtLoopTop`; engine level: `cEager` / `cBatch`). -/
+theorem cancel_facts_match :
+    genCancelFacts = Expected.C03.cancelFacts ∧ FactsC03.tmIgnoresCtx = true ∧
+    FactsC03.cancelCheckAtLoopTop = true := by decide
+
+theorem cancel_facts_good : genCancelFacts.executorDefersFirst = true := by decide
+
+/-- **cancel_keeps_protocol.** Wherever the context becomes done in a schedule, the state of
+    the task manager is one the cancel-free protocol reaches too (the `cancel` and `enter`
+    steps erased), no execution is dropped, `num` still counts exactly what is running, listed
+    or in the channel, and nothing is lost or duplicated in transit: all the theorems about
+    `Reachable` states above apply unchanged. -/
+theorem cancel_keeps_protocol (needAll : Bool) (c : CSt)
+    (h : CReachable genFacts genCancelFacts needAll c) :
+    Reachable genFacts needAll c.s ∧ c.dropped = [] ∧
+    c.s.num = c.s.running.length + c.s.l.length + c.s.ch.length ∧
+    (c.s.got ++ (c.s.ch ++ c.s.l) ++ c.s.running).Perm c.s.submitted := by
+  have hb := creachable_base cancel_facts_good h
+  have hI := tm_inv_reachable needAll c.s hb.1
+  exact ⟨hb.1, hb.2, hI.1, hI.2.2⟩
+
+/-- **cancel_exactly_once.** Every execution that `submit` counted is collected exactly once
+    when the counter is back to zero, for every schedule and every position of the cancel. -/
+theorem cancel_exactly_once (needAll : Bool) (c : CSt)
+    (h : CReachable genFacts genCancelFacts needAll c) (hn : c.s.num = 0) :
+    c.s.got.Perm c.s.submitted ∧ c.dropped = [] := by
+  have hb := creachable_base cancel_facts_good h
+  exact ⟨tm_exactly_once needAll c.s hb.1 hn, hb.2⟩
+
+/-- **cancel_never_hangs.** From any state reachable with a cancel anywhere, every schedule
+    without a further `submit` (it may contain the cancel) has at most `cmeasure c` steps;
+    while something is outstanding a step of an executor or of the collector is enabled
+    (a counted execution can begin, a begun one can finish, the collector can receive or
+    re-fill); and when no such step is possible any more the counter is zero, everything
+    submitted has been collected exactly once and nothing was dropped.  (The collecting calls
+    of the run loop return, whatever the position of the cancel, as soon as the node bodies
+    have returned.) -/
+theorem cancel_never_hangs (needAll : Bool) (c c' : CSt) (evs : List CEv)
+    (h : CReachable genFacts genCancelFacts needAll c) (hns : ∀ e ∈ evs, e.isSubmit = false)
+    (hr : crun genFacts genCancelFacts needAll c evs = some c') :
+    evs.length + cmeasure c' ≤ cmeasure c ∧
+    (c'.s.num ≠ 0 → ∃ e : CEv, e.isSubmit = false ∧ e ≠ .cancel ∧
+        (cstep genFacts genCancelFacts needAll c' e).isSome = true) ∧
+    ((∀ e : CEv, e.isSubmit = false → e ≠ .cancel →
+        cstep genFacts genCancelFacts needAll c' e = none) →
+      c'.s.num = 0 ∧ c'.s.got.Perm c'.s.submitted ∧ c'.dropped = []) := by
+  have hreach' := creachable_run h hr
+  have hb := creachable_base cancel_facts_good hreach'
+  have hI := reachable_inv facts_good hb.1
+  have hprog : c'.s.num ≠ 0 → ∃ e : CEv, e.isSubmit = false ∧ e ≠ .cancel ∧
+      (cstep genFacts genCancelFacts needAll c' e).isSome = true :=
+    fun hn => cprogress facts_good genCancelFacts needAll hI hn
+  refine ⟨crun_measure needAll evs hns hr, hprog, ?_⟩
+  intro hstuck
+  have hnum : c'.s.num = 0 := by
+    apply Classical.byContradiction
+    intro hn
+    obtain ⟨e, he1, he2, he3⟩ := hprog hn
+    rw [hstuck e he1 he2] at he3
+    cases he3
+  have := cancel_exactly_once needAll c' hreach' hnum
+  exact ⟨hnum, this.1, this.2⟩
+
+/-- non-vacuity: batch mode, the cancel lands between the loop-top check and the start of
+    the executors (after `submit` has counted two tasks, before either executor begins); the
+    run goes on and collects both -/
+example :
+    ∃ c, crun genFacts genCancelFacts true CSt.init
+        [.tm (.submit [1, 2]), .cancel, .enter 2, .enter 1, .tm (.finish 2 false),
+         .tm (.finish 1 false), .tm .recv, .tm .refill, .tm .recv, .tm .refill] = some c ∧
+      c.ctxDone = true ∧ c.s.num = 0 ∧ c.s.got = [2, 1] ∧ c.dropped = [] :=
+  ⟨⟨⟨[], [], [], 0, .idle, [2, 1], [1, 2], []⟩, true, [], []⟩, by decide, rfl, rfl, rfl, rfl⟩
+
+/-- non-vacuity: a reachable state with the context done, an execution not begun, one inside
+    its body and the collector in its window -/
+example : CReachable genFacts genCancelFacts false
+    ⟨⟨[2, 3], [], [], 2, .window, [1], [1, 2, 3], []⟩, true, [3], []⟩ :=
+  ⟨[.tm (.submit [1, 2, 3]), .enter 1, .tm (.finish 1 false), .enter 2, .tm .recv, .cancel], by decide⟩
+
+/-- **cancel_window_hang_batch.** (negation witness, the shape of seed C03-51)
+    `executorDefersFirst := false` — the executor looks at the context above the `defer` and
+    returns when it is done: batch mode, two tasks of one step, the context becomes done after
+    the loop-top check and before the executors begin.  Both executions are dropped, `waitAll`
+    blocks forever with `num = 2`, nothing running and an empty channel. -/
+theorem cancel_window_hang_batch :
+    ∃ c, crun Expected.C03.facts ⟨false⟩ true CSt.init
+          [.tm (.submit [1, 2]), .cancel, .enter 2, .enter 1] = some c ∧
+      c.s.num = 2 ∧ c.s.running = [] ∧ c.s.l = [] ∧ c.s.ch = [] ∧ c.s.coll = .idle ∧
+      c.dropped = [1, 2] ∧
+      (∀ e : CEv, e.isSubmit = false → e ≠ .cancel →
+        cstep Expected.C03.facts ⟨false⟩ true c e = none) := by
+  refine ⟨⟨⟨[], [], [], 2, .idle, [], [1, 2], []⟩, true, [], [1, 2]⟩, by decide, rfl, rfl, rfl, rfl,
+    rfl, rfl, ?_⟩
+  intro e he hc
+  cases e with
+  | cancel => exact absurd rfl hc
+  | enter t => simp [cstep]
+  | tm ev =>
+    cases ev with
+    | submit ts => cases he
+    | finish t err => simp [cstep, step]
+    | recv => decide
+    | refill => decide
+
+/-- **cancel_window_hang_eager.** The same fact, eager mode (Workflow): `waitOne` blocks
+    forever with `num = 2`. -/
+theorem cancel_window_hang_eager :
+    ∃ c, crun Expected.C03.facts ⟨false⟩ false CSt.init
+          [.tm (.submit [1, 2]), .cancel, .enter 1, .enter 2] = some c ∧
+      c.s.num = 2 ∧ c.s.running = [] ∧ c.s.ch = [] ∧ c.s.coll = .idle ∧ c.dropped = [2, 1] ∧
+      (∀ e : CEv, e.isSubmit = false → e ≠ .cancel →
+        cstep Expected.C03.facts ⟨false⟩ false c e = none) := by
+  refine ⟨⟨⟨[], [], [], 2, .idle, [], [1, 2], []⟩, true, [], [2, 1]⟩, by decide, rfl, rfl, rfl, rfl,
+    rfl, ?_⟩
+  intro e he hc
+  cases e with
+  | cancel => exact absurd rfl hc
+  | enter t => simp [cstep]
+  | tm ev =>
+    cases ev with
+    | submit ts => cases he
+    | finish t err => simp [cstep, step]
+    | recv => decide
+    | refill => decide
+
+/-- **cancel_window_hang_single.** The same fact, a single task run synchronously on the
+    run-loop goroutine: the inlined call returns to `submit` without a push, the collector is
+    idle with `num = 1` and an empty channel.  With the fact of the unchanged tree the three
+    schedules go on (example above). -/
+theorem cancel_window_hang_single :
+    ∃ c, crun Expected.C03.facts ⟨false⟩ true CSt.init
+          [.tm (.submit [1]), .cancel, .enter 1] = some c ∧
+      c.s.num = 1 ∧ c.s.running = [] ∧ c.s.ch = [] ∧ c.s.coll = .idle ∧ c.dropped = [1] ∧
+      (∀ e : CEv, e.isSubmit = false → e ≠ .cancel →
+        cstep Expected.C03.facts ⟨false⟩ true c e = none) := by
+  refine ⟨⟨⟨[], [], [], 1, .idle, [], [1], []⟩, true, [], [1]⟩, by decide, rfl, rfl, rfl, rfl, rfl, ?_⟩
+  intro e he hc
+  cases e with
+  | cancel => exact absurd rfl hc
+  | enter t => simp [cstep]
+  | tm ev =>
+    cases ev with
+    | submit ts => cases he
+    | finish t err => simp [cstep, step]
+    | recv => decide
+    | refill => decide
+
+/-- **cancelled_batch_run_collects_all.** Engine level (reference of the harness family
+    `cancel`): a batch run whose context becomes done — before the run, inside a state
+    pre-handler, while a body runs, inside a state post-handler, for every graph and
+    completion priority — has received every execution it started when it returns (a value or
+    the cancellation error). -/
+theorem cancelled_batch_run_collects_all (c : CCfg) (hb : c.eager = false) :
+    iUncollected (cRun c).st = [] := cRun_batch_uncollected_nil c hb
+
+/-- **cancelled_eager_run_one_completion_per_iteration.** An eager run that returns has
+    received exactly one completion per iteration of the run loop it entered, wherever the
+    context became done: the iteration in which it became done is completed. -/
+theorem cancelled_eager_run_one_completion_per_iteration (c : CCfg) (he : c.eager = true)
+    (hs : (cRun c).out ≠ .stuck) : (cRun c).steps.length = (cRun c).iters := by
+  unfold cRun at hs ⊢
+  simp only [he, if_true] at hs ⊢
+  exact cEager_steps_len c _ _ _ _ _ _ _ rfl hs
+
+/-- START → {a, b} → END -/
+def cancelCase (eager : Bool) (order : List Key) (a : CancelAt) : CCfg :=
+  { g := { nodes := [⟨"a", ["start"]⟩, ⟨"b", ["start"]⟩], endPreds := ["a", "b"], input := "x" }
+    eager := eager, order := order, at_ := a }
+
+/-- **cancelled_run_witness.** On START → {a, b} → END with the context becoming done inside
+    the state pre-handler of `a` (the window of seed C03-51): the batch run starts and
+    collects both nodes and returns the value (END is ready before the next loop-top check);
+    the eager run collects one completion and returns the cancellation error with the other
+    execution still in flight (the class of the recorded finding: an eager run that returns
+    early abandons what is in flight); a context that is done before the run starts nothing. -/
+theorem cancelled_run_witness :
+    (cRun (cancelCase false ["a", "b"] (.pre "a"))).out = .ok ∧
+    (cRun (cancelCase false ["a", "b"] (.pre "a"))).st.done = ["start", "a", "b"] ∧
+    (cRun (cancelCase true ["a", "b"] (.pre "a"))).out = .cancelled ∧
+    iUncollected (cRun (cancelCase true ["a", "b"] (.pre "a"))).st = ["b"] ∧
+    (cRun (cancelCase true ["b", "a"] (.body "b"))).out = .cancelled ∧
+    iUncollected (cRun (cancelCase true ["b", "a"] (.body "b"))).st = ["a"] ∧
+    (cRun (cancelCase true ["a", "b"] .never)).out = .ok ∧
+    (cRun (cancelCase false ["a", "b"] .before)).out = .cancelled ∧
+    (cRun (cancelCase false ["a", "b"] .before)).st.started = ["start"] := by decide
 
 end EinoV.C03
